@@ -492,6 +492,24 @@ theorem C10_gen_shape :
 /-! The two graph functions of science.py are no longer text-pinned: they are translated statement by statement and proved equal to
 `topoSort` / `hasCycle` for every graph in Props/C10Graph.lean (`C10_gen_topological_sort`, `C10_gen_graph_has_cycle`). -/
 
+/-- **the three `step` methods, as extracted on this run, compute the rewards on the post-step state and return them**: in the
+first step of an episode and in every later one there is exactly one simulator tick, `update_agents` runs exactly once and on a
+`get_sim_state()` snapshot taken AFTER that tick, and the two environments return `current_reward` (not the total), read once and
+AFTER `update_agents` (`pipeOK`, Model/Reward.lean). -/
+theorem C10_gen_step_pipelines :
+    Gen.Reward.stepPipelines.map (·.1) = ["PrimaiteGame.step", "PrimaiteGymEnv.step", "PrimaiteRayMARLEnv.step"] ∧
+    Gen.Reward.stepPipelines.map (·.2.1) = [false, true, true] ∧
+    Gen.Reward.stepPipelines.all (fun p => pipeOK p.2.1 p.2.2) = true := by
+  decide
+
+/-! `pipeOK` tells the wrong pipelines apart: rewards on the snapshot taken before the tick; the returned reward read before
+`update_agents`; the total returned; `update_agents` only in the first step. -/
+example : pipeOK false [(false, .applyActions), (false, .getState "s"), (false, .advance), (false, .updateAgents "s")] = false := by decide
+example : pipeOK true [(false, .advance), (false, .getState "s"), (false, .readReward false), (false, .updateAgents "s")] = false := by decide
+example : pipeOK true [(false, .advance), (false, .getState "s"), (false, .updateAgents "s"), (false, .readReward true)] = false := by decide
+example : pipeOK false [(false, .advance), (true, .getState "s"), (true, .updateAgents "s")] = false := by decide
+example : pipeOK false [(true, .getState "s0"), (false, .advance), (false, .getState "s"), (false, .updateAgents "s0")] = false := by decide
+
 /-- a component whose configuration omits `weight` is registered with the model's default, and `RewardFunction.__init__`
 passes the configured weight to `register_component` unchanged -/
 theorem C10_gen_default_weight :
